@@ -11,6 +11,7 @@ package pattern
 
 //@ func Match
 //@   ensures result1 == nil ==> len(result0) <= len(s)
+//@   ensures result1 != nil ==> len(result0) == 0
 //@   ensures mode&Suffix != 0 && mode&Prefix != 0 ==> result1 == NoMatch
 //@   loop "for mode&Smallest != 0 && mode&Suffix != 0" invariant len(m) == 2 && len(m[0]) <= len(s) && len(m[1]) <= len(s#0)
 
